@@ -170,11 +170,18 @@ class LeaseCheckingCrawler(ShareCrawler):
 
     def process_bucket(self, cycle, prefix, prefixdir, storage_index_b32):
         bucketdir = os.path.join(prefixdir, storage_index_b32)
-        s = self.stat(bucketdir)
+        try:
+            s = self.stat(bucketdir)
+            sharefiles = os.listdir(bucketdir)
+        except FileNotFoundError:
+            # the bucket was listed when we started on this prefix, and has
+            # been deleted since (e.g. its last share was removed while we
+            # were between timeslices): there is nothing left to examine
+            return
         would_keep_shares = []
         wks = None
 
-        for fn in os.listdir(bucketdir):
+        for fn in sharefiles:
             try:
                 shnum = int(fn)
             except ValueError:
